@@ -148,7 +148,7 @@ def disjointNames : List LeafSpec → Bool
 /-- side conditions of a flat model with `n` arena slots -/
 def wfFlat (n root : Nat) (ls : List LeafSpec) : Bool :=
   decide (root < n) && ls.all (fun l => decide (l.id < n)) && decide ((root :: ls.map (·.id)).Nodup) &&
-    disjointNames ls && ls.all (·.okRange)
+    disjointNames ls && ls.all (·.okRange) && decide (ls.length + 1 ≤ n)
 
 theorem ids_ofSpecs (ls : List LeafSpec) : (ofSpecs ls).ids = ls.map (·.id) := by
   induction ls with
@@ -176,7 +176,7 @@ theorem flatA_of_wf (n root : Nat) (k : GKind) (glo : Nat) (ghi : Option Nat) (l
     (h : wfFlat n root ls = true) :
     FlatA (mkArena n (Particle.group root k glo ghi (ofSpecs ls)).flatten) n root (gkindNode k) glo ghi ls := by
   simp only [wfFlat, Bool.and_eq_true, decide_eq_true_eq, List.all_eq_true] at h
-  obtain ⟨⟨⟨⟨h1, h2⟩, h3⟩, _⟩, _⟩ := h
+  obtain ⟨⟨⟨⟨⟨h1, h2⟩, h3⟩, _⟩, _⟩, _⟩ := h
   have hfl : (Particle.group root k glo ghi (ofSpecs ls)).flatten =
       (root, { kind := gkindNode k, lo := glo, hi := ghi, content := ls.map (·.id) }) ::
         ls.map fun l => (l.id, l.node) := by
